@@ -59,3 +59,17 @@ PROPS["C15"] = {
          "env": {"VERIF_LIMIT_FRAC": "0.2"}},
     ],
 }
+
+PROPS["C20"] = {
+    "claimed": False,
+    "level": "exploration",
+    "level_text": "TODO",
+    "level_note": "TODO",
+    "technique": "TODO",
+    "rule": "TODO",
+    "monitors": [
+        {"name": "C20.val", "test": "TestVerifC20Val", "shards": 4, "gomaxprocs": 8, "bubble": False},
+        {"name": "C20.val.race", "test": "TestVerifC20Val", "shards": 4, "gomaxprocs": 8, "bubble": False, "race": True},
+        {"name": "C20.len", "test": "TestVerifC20Len", "shards": 4, "bubble": False},
+    ],
+}
